@@ -904,7 +904,7 @@ fn run_case(case: &Case, dir: &Path, hb: &Heartbeat, out: &Out, opts: &Opts) -> 
         check_diags(&project, &mut sc, &diags);
         // files to query: the edited one, plus one other; at step 0 and at the last step all of them
         let mut qfiles: Vec<String> = vec![];
-        let lean = case.family == "kinds" || case.family == "lits";
+        let lean = case.family == "kinds" || case.family == "lits" || case.family == "cycles";
         let batch = case.family.ends_with("-batch");
         if lean && step > 0 && step < nsteps {
             // per-site sweep of the kind-confusion family: thousands of states that differ in one line
@@ -1340,6 +1340,16 @@ fn main() {
             std::fs::create_dir_all(&dir).unwrap();
             let m = minimize(case, &want, &dir);
             std::fs::write(&args[3], serde_json::to_string_pretty(&m.to_json()).unwrap()).unwrap();
+        }
+        "famcases" => {
+            // c03 famcases cycles <seed> <out.json>: the cases of a family that runs in its own process
+            let seed: u64 = args[3].parse().unwrap();
+            let cases = match args[2].as_str() {
+                "cycles" => gen::cycle_cases(seed),
+                _ => vec![],
+            };
+            let v: Vec<Value> = cases.iter().map(|c| c.to_json()).collect();
+            std::fs::write(&args[4], serde_json::to_string(&v).unwrap()).unwrap();
         }
         "dump" => {
             // c03 dump <seed> <ncases> <nsteps> <kinds> <id>: the generated case with that id (as `gen` would build it)
